@@ -7,8 +7,8 @@
       pickle_load = _RestrictedUnpickler(file, safe_to_import).load()   -> [vm_run]
     and the part of CPython's unpickling machine (Modules/_pickle.c, protocols
     0-5) that decides WHICH globals are looked up, WHAT is called with what,
-    and what value comes out.  The machine works on an opcode list (the byte
-    level - argument decoding, framing - is pickletools.genops, trusted).
+    and what value comes out.  The machine works on an opcode list; the byte
+    level - opcode bytes, argument decoding, framing - is Pickle/Bytes.v.
 
     Objects carry identity: every mutable object (list, dict, set, instance)
     gets a fresh [id] when it is created and a mutation through one reference
@@ -55,7 +55,8 @@ Inductive obj :=
 | ONoneType                                (* persistent_load("<<NoneType>>") *)
 | OInst (id : nat) (k : ckind) (callee args : obj) (states : list obj)
                                            (* result of calling [callee] with [args]; BUILD appends to [states] *)
-| OMark.
+| OMark
+| OByteArray (s : pystr).                  (* BYTEARRAY8 (protocol 5); never mutated inside the model, see [OutOfModel] *)
 
 Definition is_mark (o : obj) : bool := match o with OMark => true | _ => false end.
 
@@ -154,7 +155,7 @@ Fixpoint obj_pyeq (a b : obj) {struct a} : bool :=
 
 Fixpoint hashable (o : obj) : bool :=
   match o with
-  | OList _ _ | ODict _ _ | OSet _ _ | OMark => false
+  | OList _ _ | ODict _ _ | OSet _ _ | OMark | OByteArray _ => false
   | OTuple xs => forallb hashable xs
   | _ => true
   end.
@@ -196,7 +197,11 @@ Inductive err :=
 | BadArg                           (* unsupported protocol, negative PUT, bad EXT code *)
 | CallRaised
 | BuildRaised
-| Truncated.                       (* ran out of opcodes before STOP: EOFError *)
+| Truncated                        (* ran out of opcodes before STOP: EOFError *)
+| OutOfModel                       (* the load goes on in a way the model does not follow: a container opcode applied to
+                                      a symbolic instance or a bytearray, READONLY_BUFFER on a bytearray *)
+| Malformed (k : N).               (* the byte stream ends in an undecodable opcode (Pickle/Bytes.v: 1 truncated argument,
+                                      2 unknown opcode, 3 bad argument, 4 length beyond sys.maxsize) *)
 
 (** * Opcodes (arguments as decoded by pickletools.genops) *)
 
@@ -216,7 +221,10 @@ Inductive op :=
 | GLOBAL (m n : pystr) | STACK_GLOBAL | INST (m n : pystr) | OBJ
 | NEWOBJ | NEWOBJ_EX | REDUCE | BUILD
 | BINPERSID | PERSID (s : pystr)
-| EXT1 (c : Z) | EXT2 (c : Z) | EXT4 (c : Z).
+| EXT1 (c : Z) | EXT2 (c : Z) | EXT4 (c : Z)
+(* the remaining opcodes of protocols 0-5; none of them looks up a global *)
+| STRING (s : pystr) | BINSTRING (s : pystr) | SHORT_BINSTRING (s : pystr)   (* Python-2 str, decoded as ASCII *)
+| BYTEARRAY8 (s : pystr) | NEXT_BUFFER | READONLY_BUFFER.
 
 (** * Machine state *)
 
@@ -351,6 +359,10 @@ Definition do_call (w : world) (st : state) (k : ckind) (callee args : obj) (res
   then SNext (fresh (set_stack st1 (OInst (next st) k callee args [] :: rest)))
   else SFail CallRaised st1.
 
+(* the C unpickler's memo is an ARRAY: an explicit index i makes it grow to 2*i slots (zero-filled).  Whether
+   that allocation succeeds for an absurd index depends on the machine; above this bound the model stops *)
+Definition MEMO_MAX : Z := 67108864.    (* 2^26: a 1 GiB array *)
+
 Definition do_put (st : state) (i : Z) : sres :=
   match pop1 (stack st) with
   | None => SFail Underflow st
@@ -387,6 +399,7 @@ Definition do_extend (st : state) (items below : list obj) : sres :=
       | _ =>
           match target with
           | OList i xs => SNext (mutate i (OList i (xs ++ items)) (set_stack st below))
+          | OInst _ _ _ _ _ | OByteArray _ => SFail OutOfModel st    (* extend / append of an arbitrary object *)
           | _ => SFail BadOperand st                (* no extend/append attribute *)
           end
       end
@@ -413,6 +426,7 @@ Definition do_setitems (st : state) (items below : list obj) : sres :=
                   | Some xs' => SNext (mutate i (OList i xs') (set_stack st below))
                   | None => SFail BadOperand st
                   end
+              | OInst _ _ _ _ _ | OByteArray _ => SFail OutOfModel st   (* __setitem__ of an arbitrary object *)
               | _ => SFail BadOperand st            (* object does not support item assignment *)
               end
           end
@@ -432,7 +446,8 @@ Definition do_additems (st : state) (items below : list obj) : sres :=
               | Some xs' => SNext (mutate i (OSet i xs') (set_stack st below))
               | None => SFail Unhashable st
               end
-          | _ => SFail BadOperand st                (* no add attribute (frozenset included) *)
+          | OInst _ _ _ _ _ => SFail OutOfModel st  (* add of an arbitrary object *)
+          | _ => SFail BadOperand st                (* no add attribute (frozenset, bytearray included) *)
           end
       end
   end.
@@ -466,8 +481,10 @@ Definition step (w : world) (st : state) (o : op) : sres :=
            end
   | MARK => SNext (push OMark st)
   | MEMOIZE => do_put st (Z.of_nat (List.length (memo st)))
-  | PUT i => if Z.ltb i 0 then SFail BadArg st else do_put st i
-  | BINPUT i | LONG_BINPUT i => do_put st i
+  | PUT i => if Z.ltb i 0 then SFail BadArg st
+             else if Z.ltb MEMO_MAX i then SFail OutOfModel st else do_put st i
+  | BINPUT i => do_put st i
+  | LONG_BINPUT i => if Z.ltb MEMO_MAX i then SFail OutOfModel st else do_put st i
   | GET i | BINGET i | LONG_BINGET i => do_get st i
   | NONE => SNext (push ONone st)
   | NEWTRUE => SNext (push (OBool true) st)
@@ -628,6 +645,16 @@ Definition step (w : world) (st : state) (o : op) : sres :=
       end
   | PERSID s => SNext (push (persistent_load (OStr s)) (emit (EPersist (OStr s)) st))
   | EXT1 c | EXT2 c | EXT4 c => do_ext w st c
+  | STRING s | BINSTRING s | SHORT_BINSTRING s => SNext (push (OStr s) st)
+  | BYTEARRAY8 s => SNext (push (OByteArray s) st)
+  | NEXT_BUFFER => SFail BadOperand st              (* no out-of-band buffers were given to the unpickler *)
+  | READONLY_BUFFER =>
+      match pop1 (stack st) with
+      | Some (OBytes _, _) => SNext st              (* bytes is read-only already: left as it is *)
+      | Some (OByteArray _, _) => SFail OutOfModel st   (* replaced by a read-only memoryview *)
+      | Some _ => SFail BadOperand st               (* memoryview: a bytes-like object is required *)
+      | None => SFail Underflow st
+      end
   end.
 
 (** * Running a program *)
